@@ -629,6 +629,8 @@ class Parser:
         if p == "{":
             stmts, tail = self.parse_braced()
             return ("exprnosemi", ("block", stmts, tail))
+        if p == "unsafe" and self.peek(1) == "{":
+            return ("exprnosemi", self.parse_primary(False))
         e = self.parse_expr()
         q = self.peek()
         if q in ASSIGN_OPS:
@@ -806,7 +808,14 @@ class Parser:
         if p == "match":
             raise Unsupported("match expression")
         if p == "unsafe":
-            raise Unsupported("unsafe block")
+            # kept as an opaque token list: the translator maps one exact idiom (rs2lean.FnTr.unsafe_fill) and rejects the rest
+            self.eat()
+            if self.peek() != "{":
+                raise Unsupported("unsafe item")
+            c = match_close(self.t, self.i)
+            toks = self.t[self.i + 1:c]
+            self.i = c + 1
+            return ("unsafe", toks)
         if k == "str" or k == "char":
             self.eat()
             return ("str", p)
